@@ -145,3 +145,63 @@ def weight_product(sw1, sw2, auto):
                 else:
                     out[b, i, j] = sw1[b, i] * sw2[b, j]
     return out
+
+
+# ---------------------------------------------------------- estimators ---
+
+
+def ref_norm_term(counts, sw1, sw2, auto):
+    """Normalised pair-count term and its delete-one samples, from the C04 text:
+    total pair count divided by the product of the two samples' total weights
+    (half the squared total for an autocorrelation); sample k removes patch k
+    from counts (every cell touching k) and from the totals."""
+    B, N, _ = counts.shape
+    data = np.zeros(B)
+    samples = np.zeros((N, B))
+    with np.errstate(all="ignore"):
+        for b in range(B):
+            tot = 0.0
+            for i in range(N):
+                for j in range(N):
+                    tot += counts[b, i, j]
+            t1 = sum(sw1[b, i] for i in range(N))
+            t2 = sum(sw2[b, j] for j in range(N))
+            norm = 0.5 * t1 * t2 if auto else t1 * t2
+            data[b] = np.float64(tot) / np.float64(norm)
+            for k in range(N):
+                c = 0.0
+                for i in range(N):
+                    for j in range(N):
+                        if i != k and j != k:
+                            c += counts[b, i, j]
+                u1 = sum(sw1[b, i] for i in range(N) if i != k)
+                u2 = sum(sw2[b, j] for j in range(N) if j != k)
+                nk = 0.5 * u1 * u2 if auto else u1 * u2
+                samples[k, b] = np.float64(c) / np.float64(nk)
+    return data, samples
+
+
+def ref_estimator(terms):
+    """terms: dict kind -> array (dd required). Returns list of acceptable results
+    (several where the statement allows a choice) or None where it defines nothing."""
+    dd, dr, rd, rr = (terms.get(k) for k in ("dd", "dr", "rd", "rr"))
+    with np.errstate(all="ignore"):
+        if rr is not None:
+            if dr is None:
+                return None  # Landy-Szalay without DR: not defined by the statement
+            rd_eff = dr if rd is None else rd
+            return [(dd - dr - rd_eff + rr) / rr]
+        out = []
+        if dr is not None:
+            out.append(dd / dr - 1.0)
+        if rd is not None:
+            out.append(dd / rd - 1.0)
+        return out
+
+
+def close(a, b, rtol=1e-12, atol=0.0):
+    a = np.asarray(a, dtype=float)
+    b = np.asarray(b, dtype=float)
+    if a.shape != b.shape:
+        return False
+    return bool(np.allclose(a, b, rtol=rtol, atol=atol, equal_nan=True))
